@@ -360,6 +360,15 @@ func (w *winWorld) senderStep(s Step) {
 		if win == 0 {
 			w.Probes["zero_window_offered"]++
 		}
+	case "farack":
+		// an acknowledgement of data that was never sent, half the sequence space (give or take one) ahead:
+		// it acknowledges nothing; whatever is queued behind a closed window is still owed to the peer
+		d := uint32(1<<31) + uint32(s.A%3) - 1
+		if s.A >= 3 {
+			d = uint32(1 << 30)
+		}
+		p.Send(codec.FlagACK, p.SndNxt, p.RcvNxt+d, w.peerWin, nil, nil)
+		w.Probes["acks_of_data_never_sent"]++
 	case "pooo":
 		// the peer sends a few bytes out of order: the stack now has a hole to report, so
 		// (with SACK negotiated) its segments carry SACK blocks - and must still fit
@@ -410,7 +419,9 @@ func (w *winWorld) senderStep(s Step) {
 
 func (w *winWorld) senderNext() Step {
 	r := w.Rng
-	switch r.Pick(5, 10, 1, 3, 1) {
+	switch r.Pick(5, 10, 1, 3, 1, 1) {
+	case 5:
+		return Step{Op: "farack", A: r.Intn(4)}
 	case 4:
 		return Step{Op: "pooo", B: r.Intn(3000), C: r.Intn(50)}
 	case 0:
